@@ -7,7 +7,7 @@
      host (mkHost h_base h_maxfrag h_full h_frag h_aff)
      new_host cpumap base maxfrag : outcome host             newHost
      reorder_by_affinity oldH newH : host                    reorderByAffinity
-     pieces_request base cpu : Z                             int(cpuRequest*float64(shareBase)) [as in /repo]
+     pieces_request base cpu : Z                             int(math.Round(cpuRequest*float64(shareBase)))
    Generic in the final sort of getFullCPUPlans ([sortf], section variable):
      get_full_plans_g sortf … / host_cpu_plans_g sortf … / do_get_cpu_plans_g sortf … /
      get_cpu_plans_g sortf info origin base maxfrag req numa_order fuel
@@ -78,8 +78,10 @@ Definition reorder_by_affinity (oldh newh : host) : host :=
          (isort (aff_less (h_full oldh)) (h_full newh))
          (isort (aff_less (h_frag oldh)) (h_frag newh)) true.
 
-(* int(cpuRequest * float64(shareBase)) *)
-Definition pieces_request (base : Z) (cpu : f64) : Z := f_to_int (fmul cpu (f_of_Z base)).
+(* int(math.Round(cpuRequest * float64(shareBase)))   [/repo 5bf30c8; before: int(cpu*base)] *)
+Definition pieces_request (base : Z) (cpu : f64) : Z := f_to_int (f_round (fmul cpu (f_of_Z base))).
+(* the computation before the repair, kept for the refutation witness of C05 *)
+Definition pieces_request_trunc (base : Z) (cpu : f64) : Z := f_to_int (fmul cpu (f_of_Z base)).
 
 (* getFragmentCPUPlans *)
 Definition plan := smap Z.
@@ -160,6 +162,11 @@ Fixpoint has_distinct_tie (l : list keyed) : bool :=
 Definition sort_checked (l : list keyed) : outcome (list keyed) :=
   if (12 <? Z.of_nat (length l)) && has_distinct_tie l then Ambiguous else sort_exact l.
 
+(* numaCPUMap[nid] = { cpu -> available[cpu] | Capacity.NUMA[cpu] = nid }  (keys of a Go map are unique) *)
+Definition numa_cpu_map (numa : smap string) (avail_cpumap : smap Z) (nid : string) : smap Z :=
+  map (fun kv => (fst kv, lookup 0 avail_cpumap (fst kv)))
+      (filter (fun kv => String.eqb (snd kv) nid) numa).
+
 Section WithSort.
 (* the final sort.Slice of getFullCPUPlans (unstable for more than 12 elements) *)
 Variable sortf : list keyed -> outcome (list keyed).
@@ -218,7 +225,8 @@ Definition host_plans_pieces_g (h : host) (pr : Z) (fuel : nat) : outcome (list 
   if fragment =? 0 then get_full_plans_g base (h_aff h) (h_full h) full fuel else
   if full =? 0 then
     let diff := maxfrag - nfrag in
-    if (diff <? 0) || (nfull <? diff) then Panic RSlice else    (* h.fullCores[:diff] *)
+    let diff := if diff <? 0 then 0 else diff in                 (* /repo 3e812cc *)
+    if nfull <? diff then Panic RSlice else                      (* h.fullCores[:diff] *)
     get_fragment_plans (h_frag h ++ firstn (Z.to_nat diff) (h_full h)) fragment
   else
     do b0 <- get_full_plans_g base (h_aff h) (h_full h) full fuel;
@@ -230,10 +238,13 @@ Definition host_plans_pieces_g (h : host) (pr : Z) (fuel : nat) : outcome (list 
     let '(best0, best1, cap) := r in
     zip_plans (Z.to_nat cap) best0 best1.
 
-(* host.getCPUPlans; shareBase = 0 divides by zero *)
+(* host.getCPUPlans; a request of zero (or unrepresentable) pieces yields no plan
+   [/repo a3b3b84]; shareBase = 0 would divide by zero after that guard *)
 Definition host_cpu_plans_g (h : host) (cpu : f64) (fuel : nat) : outcome (list plan) :=
+  let pr := pieces_request (h_base h) cpu in
+  if pr <=? 0 then Ok [] else
   if h_base h =? 0 then Panic RDivZero else
-  host_plans_pieces_g h (pieces_request (h_base h) cpu) fuel.
+  host_plans_pieces_g h pr fuel.
 
 (* doGetCPUPlans *)
 Definition do_get_cpu_plans_g (origin avail : smap Z) (avail_mem base maxfrag : Z)
@@ -246,36 +257,33 @@ Definition do_get_cpu_plans_g (origin avail : smap Z) (avail_mem base maxfrag : 
   do plans <- host_cpu_plans_g h cpu fuel;
   if 0 <? mem then
     let cap := Z.quot avail_mem mem in
-    if cap <? Z.of_nat (length plans) then
-      if cap <? 0 then Panic RSlice else Ok (firstn (Z.to_nat cap) plans)
+    let cap := if cap <? 0 then 0 else cap in                    (* /repo 476e7d6 *)
+    if cap <? Z.of_nat (length plans) then Ok (firstn (Z.to_nat cap) plans)
     else Ok plans
   else Ok plans.
 
 (* the per-NUMA loop of GetCPUPlans *)
-Fixpoint numa_loop (order : list string) (numa_maps : smap (smap Z)) (origin : smap Z)
+Fixpoint numa_loop (order : list string) (numa : smap string) (avail0 : smap Z) (origin : smap Z)
    (base maxfrag : Z) (cpu : f64) (mem : Z) (fuel : nat)
    (avail : node_resource) (acc : list (string * plan))
   : outcome (node_resource * list (string * plan)) :=
   match order with
   | [] => Ok (avail, acc)
   | nid :: rest =>
-    do plans <- do_get_cpu_plans_g origin (lookup [] numa_maps nid) (lookup 0 (nr_numamem avail) nid)
+    (* utils.Min(NUMAMemory[nid], Memory)   [/repo 476e7d6] *)
+    do plans <- do_get_cpu_plans_g origin (numa_cpu_map numa avail0 nid)
+                                   (Z.min (lookup 0 (nr_numamem avail) nid) (nr_mem avail))
                                    base maxfrag cpu mem fuel;
     let avail' := fold_left (fun a p => nr_sub_nofloat a (mkNR f_zero p mem [(nid, mem)] [])) plans avail in
-    numa_loop rest numa_maps origin base maxfrag cpu mem fuel avail'
+    numa_loop rest numa avail0 origin base maxfrag cpu mem fuel avail'
               (acc ++ map (fun p => (nid, p)) plans)
   end.
-
-Definition numa_cpu_maps (numa : smap string) (avail_cpumap : smap Z) : smap (smap Z) :=
-  fold_left (fun m kv => upd m (snd kv) (upd (lookup [] m (snd kv)) (fst kv) (lookup 0 avail_cpumap (fst kv))))
-            numa [].
 
 (* GetCPUPlans *)
 Definition get_cpu_plans_g (info : node_info) (origin : smap Z) (base maxfrag : Z) (req : wreq)
    (numa_order : list string) (fuel : nat) : outcome (list (string * plan)) :=
   let avail := get_available_nofloat info in
-  let numa_maps := numa_cpu_maps (nr_numa (ni_cap info)) (nr_cpumap avail) in
-  do r <- numa_loop numa_order numa_maps origin base maxfrag (rq_cpu_req req) (rq_mem_req req) fuel avail [];
+  do r <- numa_loop numa_order (nr_numa (ni_cap info)) (nr_cpumap avail) origin base maxfrag (rq_cpu_req req) (rq_mem_req req) fuel avail [];
   let '(avail', acc) := r in
   do cross <- do_get_cpu_plans_g origin (nr_cpumap avail') (nr_mem avail') base maxfrag
                                  (rq_cpu_req req) (rq_mem_req req) fuel;
@@ -289,11 +297,21 @@ Definition host_cpu_plans := host_cpu_plans_g sort_exact.
 Definition get_full_plans := get_full_plans_g sort_exact.
 
 (* distinct NUMA node ids, in order of first occurrence in Capacity.NUMA *)
-Definition numa_nodes (info : node_info) : list string :=
-  keys (numa_cpu_maps (nr_numa (ni_cap info)) []).
+Fixpoint dedup (l : list string) : list string :=
+  match l with
+  | [] => []
+  | x :: t => x :: filter (fun y => negb (String.eqb x y)) (dedup t)
+  end.
+Definition numa_nodes (info : node_info) : list string := dedup (map snd (nr_numa (ni_cap info))).
 
+(* fuel: 1 + free pieces of the node + free pieces of the cores listed in the NUMA map
+   (every loop of the scheduler consumes at least one free piece per iteration) *)
+Definition mweight (m : smap Z) : Z := fold_right (fun kv s => Z.max 0 (snd kv) + s) 0 m.
+Definition nweight (numa : smap string) (avail : smap Z) : Z :=
+  fold_right (fun kv s => Z.max 0 (lookup 0 avail (fst kv)) + s) 0 numa.
 Definition default_fuel (info : node_info) : nat :=
-  S (Z.to_nat (fold_left (fun s kv => s + Z.max 0 (snd kv)) (nr_cpumap (get_available_nofloat info)) 0)).
+  let avail := nr_cpumap (get_available_nofloat info) in
+  S (Z.to_nat (mweight avail + nweight (nr_numa (ni_cap info)) avail)).
 
 (* canonical plan list for comparison: cpu maps sorted by key *)
 Definition canon_plans (l : list (string * plan)) : list (string * plan) :=
